@@ -3,5 +3,5 @@ From Tink Require Import XBase ProtoWire SerialTables Serial.
 Require Import ExtrOcamlBasic.
 Extraction "m.ml" xb_add xb_mul xb_div_eucl
   encode decode new_key_serialization ktype_of parse_key serialize_key parse_params serialize_params
-  public_of dser dpar dpub handle_from_proto write_cleartext read_cleartext write_encrypted public_handle
+  public_of dser dpar dpub handle_from_proto write_cleartext read_cleartext write_encrypted read_encrypted public_handle
   keyset_schema.
